@@ -82,7 +82,9 @@ fn codec_oracle(toks: &[&str]) -> String {
         let last = leaf.last().unwrap().as_str();
         let key = if last=="_raw" && leaf.len()>1 { leaf[leaf.len()-2].as_str() } else { last };
         if free_text.contains(&key) && last!="_pretty" {
-            let val = match rng.below(4) { 0 => format!("two\nlines {}",rng.below(1000)), 1 => format!("ctl\u{1a}z {}",rng.below(1000)), _ => format!("VERIF {}",rng.below(1000)) };
+            let val = match rng.below(8) { 0 => format!("two\nlines {}",rng.below(1000)), 1 => format!("ctl\u{1a}z {}",rng.below(1000)),
+                2 => format!("dos\r\nline\r\nbreaks {}",rng.below(1000)), 3 => format!("three\nshort\nlines\n{}",rng.below(1000)),
+                4 => "X".repeat([1usize,31,32,33,63,64,65,255,256,257,500][rng.below(11)]), _ => format!("VERIF {}",rng.below(1000)) };
             match img.put_metadata(leaf,&json::JsonValue::String(val.clone())) {
                 Ok(()) => edits.push((leaf.clone(),val)),
                 Err(_) => {}
@@ -95,7 +97,8 @@ fn codec_oracle(toks: &[&str]) -> String {
             let mut node = &m;
             for k in path { node = &node[k.as_str()]; }
             let got = node.as_str().unwrap_or("<not a string>");
-            if got.trim_end()!=val.as_str() { return Err(format!("metadata {:?} written as {:?} reads back as {:?} {}",path,val,got,when)); }
+            // a format may store line breaks in its own way (TD0 keeps one NUL per break): CR LF and LF are the same break
+            if got.trim_end().replace("\r\n","\n")!=val.replace("\r\n","\n").as_str() { return Err(format!("metadata {:?} written as {:?} reads back as {:?} {}",path,val,got,when)); }
         }
         Ok(())
     };
@@ -143,5 +146,37 @@ fn codec_oracle(toks: &[&str]) -> String {
         let pos = b1.iter().zip(b2.iter()).position(|(x,y)| x!=y).unwrap_or(b1.len().min(b2.len()));
         return format!("FAIL second serialisation differs from the first (lengths {} / {}, first difference at {})",b1.len(),b2.len(),pos);
     }
-    format!("ok type={} bytes={} edits={}",typ,b1.len(),edits.len())
+    // every kind of free-text value in turn (one line, LF and CR LF breaks, a control character, lengths around the field sizes):
+    // written, read back, serialised, parsed again, read back
+    let values: Vec<String> = vec!["VERIF 1".to_string(),"two\nlines".to_string(),"dos\r\nline\r\nbreaks".to_string(),"three\nshort\nlines\nhere".to_string(),
+        "ctl\u{1a}z".to_string(),"X".repeat(31),"X".repeat(32),"X".repeat(33),"X".repeat(255),"X".repeat(256),"X".repeat(500)];
+    let mut swept = 0;
+    for val in &values {
+        let mut img3 = match a2kit::create_img_from_bytestream(&b1,Some(ext_of(label))) { Ok(i) => i, Err(e) => return format!("FAIL serialised image does not load again: {}",e) };
+        let mut put: Vec<Vec<String>> = Vec::new();
+        for leaf in &leaves {
+            let last = leaf.last().unwrap().as_str();
+            let key = if last=="_raw" && leaf.len()>1 { leaf[leaf.len()-2].as_str() } else { last };
+            if free_text.contains(&key) && last!="_pretty" {
+                if img3.put_metadata(leaf,&json::JsonValue::String(val.clone())).is_ok() { put.push(leaf.clone()); }
+            }
+        }
+        if put.is_empty() { continue; }
+        let look = |img: &Box<dyn DiskImage>,when: &str| -> Result<(),String> {
+            let m = json::parse(&img.get_metadata(None)).map_err(|e| format!("metadata not JSON {}: {}",when,e))?;
+            for path in &put {
+                let mut node = &m;
+                for k in path { node = &node[k.as_str()]; }
+                let got = node.as_str().unwrap_or("<not a string>");
+                if got.trim_end().replace("\r\n","\n")!=val.replace("\r\n","\n").trim_end() { return Err(format!("metadata {:?} written as {:?} reads back as {:?} {}",path,val,got,when)); }
+            }
+            Ok(())
+        };
+        if let Err(e) = look(&img3,"before saving") { return format!("FAIL {}",e); }
+        let b3 = img3.to_bytes();
+        let img4 = match a2kit::create_img_from_bytestream(&b3,Some(ext_of(label))) { Ok(i) => i, Err(e) => return format!("FAIL image with metadata {:?} = {:?} does not load again after serialising: {}",put[0],val,e) };
+        if let Err(e) = look(&img4,"after reload") { return format!("FAIL {}",e); }
+        swept += put.len();
+    }
+    format!("ok type={} bytes={} edits={} swept={}",typ,b1.len(),edits.len(),swept)
 }
